@@ -241,6 +241,59 @@ def label_scenarios(ctx, proof):
                    "label_histories_replayed_in_coq": len(comparable), "label_model_mismatches": len(mism)}
 
 
+def counters_under_lock(ctx, proof):
+    """connection A's receiver does not read and a toxic request for that direction waits on A, holding the proxy's toxic lock; connection B
+    of the same proxy carries a few bytes the other way and ends cleanly: once B's receiver has seen the end of the stream, both counters
+    for B's direction have grown by exactly B's bytes (they may not wait for the lock either)"""
+    rng = C.Rng(ctx.seed).fork("C20lock")
+    cases = []
+    for i in range((6 if ctx.tier == "quick" else 120) * (1 if proof["build_ok"] else 3)):
+        g = i % 6
+        b = T.port_base(g)
+        up, px = b + 6, b + 7
+        n = rng.choice([9, 700, 40000])
+        ops = [{"op": "upstream", "id": "u", "port": up, "mode": "manual"},
+               T.api("POST", "/proxies", {"name": "p", "listen": "127.0.0.1:%d" % px, "upstream": "127.0.0.1:%d" % up}),
+               {"op": "dial", "id": "a", "addr": "127.0.0.1:%d" % px}, {"op": "upaccept", "id": "sa", "up": "u", "ms": 1000},
+               {"op": "dial", "id": "b", "addr": "127.0.0.1:%d" % px}, {"op": "upaccept", "id": "sb", "up": "u", "ms": 1000},
+               {"op": "flood", "id": "sa"}, {"op": "sleep", "ms": 400},
+               dict(T.api("POST", "/proxies/p/toxics", {"type": "noop", "name": "l", "stream": "downstream", "attributes": {}}), ms=250)]
+        mark = len(ops) - 1
+        ops += [{"op": "send", "id": "b", "n": n}, {"op": "recv", "id": "sb", "up": "b", "n": n, "ms": 1500},
+                {"op": "close", "id": "b", "how": "half"}, {"op": "recv", "id": "sb", "up": "b", "n": 1, "ms": 1500},
+                {"op": "sleep", "ms": 150}, {"op": "metrics"}]
+        cases.append({"ops": ops, "group": g, "n": n, "mark": mark, "listen": "127.0.0.1:%d" % px, "up": "127.0.0.1:%d" % up})
+    results = T.run_tcp(ctx, cases, "c20l")
+    fails, judged = [], 0
+    for c, r in zip(cases, results):
+        if T.env_broken(r) or isinstance(r, dict):
+            continue
+        if r[c["mark"]].get("status") != -1:
+            continue                       # the request was not held up: nothing to judge
+        if not (r[c["mark"] + 2].get("ok") and r[c["mark"] + 4].get("end") == "eof"):
+            continue                       # B did not end cleanly in time (loaded machine)
+        judged += 1
+        m = r[-1].get("metrics") or {}
+        got = {}
+        for k, v in m.items():
+            mm = KEY.match(k)
+            if mm and mm.group(2) == "upstream":
+                got[mm.group(1)] = int(v)
+        if got.get("received", 0) != c["n"] or got.get("sent", 0) != c["n"]:
+            fails.append(("counters-wait-for-lock", "connection B sent %d bytes upstream and ended cleanly (its receiver saw the end of the stream) while a toxic request "
+                          "was waiting for another connection; 150 ms later received_bytes_total = %s and sent_bytes_total = %s for that direction"
+                          % (c["n"], got.get("received", "(no series)"), got.get("sent", "(no series)")),
+                          {"kind": "failing-input", "tcp": True, "case": c, "observed": r}))
+    return fails, {"counters_under_lock_runs": len(cases), "counters_under_lock_judged": judged}
+
+
+def side(ctx, proof):
+    f1, c1 = T.stable(lambda: label_scenarios(ctx, proof))
+    f2, c2 = T.stable(lambda: counters_under_lock(ctx, proof))
+    c1.update(c2)
+    return f1 + f2, c1
+
+
 def run(ctx):
     return L.run_link_property(
         ctx, PID, gen_cases, oracle,
@@ -254,7 +307,7 @@ def run(ctx):
         assumptions=["Prometheus counters add float64 exactly below 2^53 bytes",
                      "a connection whose reader is left blocked (finding F7, C15) never reports `received`: not a clean end in the sense of the property",
                      "the label histories use toxics that neither drop nor truncate; dropping/truncating chains are judged on the link runs"],
-        side_findings=label_scenarios)
+        side_findings=side)
 
 
 def replay(ctx, path):
